@@ -363,3 +363,8 @@ RULE += reuse.RULE
 from pv import names  # noqa: E402
 SUBS.append(names.sub(ID))
 RULE += names.RULE
+
+# the method interface reaches the same functions (shared exhaustive sub-check, see pv/fluent.py)
+from pv import fluent  # noqa: E402
+SUBS.append(fluent.sub(ID))
+RULE += fluent.RULE
